@@ -408,6 +408,13 @@ func runC17Scenario(c c17ScenarioCase) *vh.Outcome {
 			encodeFrame(0, netTopic(3), []byte(tag+"-type0-with-topic")),    // type without topic sent with one: misframed
 			encodeFrame(2, nil, []byte(tag+"-type2-without-topic-xxxxxxxxxxxxxxxxxxxxxxxxxxxxxxxxxxxx")),
 			{0xFF, 0xFF, 0xFF, 0xFF, 0x7F}, // absurd length
+			// announced lengths around the limit (20 MiB) and around the sign bit of a 32-bit length
+			{2, 0x01, 0x00, 0x40, 0x01}, // limit + 1
+			{2, 0xFF, 0xFF, 0xFF, 0x7F}, // 2^31 - 1
+			{2, 0x00, 0x00, 0x00, 0x80}, // 2^31
+			{2, 0xFF, 0xFF, 0xFF, 0xFF}, // 2^32 - 1
+			{0, 0x00, 0x00, 0x00, 0x80}, // 2^31, a type without topic
+			{1, 0x01, 0x00, 0x00, 0xC0},
 		}
 		for i, g := range garbles {
 			rc, err := rawValidConn(w, 3, 1)
@@ -430,6 +437,46 @@ func runC17Scenario(c c17ScenarioCase) *vh.Outcome {
 		}
 		time.Sleep(300 * time.Millisecond)
 		o.Fail = c17Healthy(w, "garbling", []int{0, 1, 2})
+	case "late-peer":
+		// a destination that is not reachable yet when messages for it are accepted: everything that Send accepted must
+		// arrive, once and in order, when the peer comes up (several dial attempts fail in between)
+		l, err := gonet.Listen("tcp", "127.0.0.1:0")
+		if err != nil {
+			o.Discard = "listen-failed"
+			return o
+		}
+		addr := l.Addr().String()
+		l.Close()
+		late := w.remoteFor(w.parties[0], addr, 1)
+		tag := fmt.Sprintf("late-%d", time.Now().UnixNano())
+		var want []string
+		for i := 0; i < 6; i++ {
+			mk := fmt.Sprintf("%s-%d", tag, i)
+			want = append(want, mk)
+			late.Send(2, netTopic(6), []byte(mk), 1)
+		}
+		time.Sleep(2500 * time.Millisecond)
+		var srv *netServer
+		func() {
+			defer func() { _ = recover() }()
+			srv = newNetServerAt(w.ca, w.p2id, addr)
+		}()
+		if srv == nil {
+			o.Discard = "port-taken-meanwhile"
+			return o
+		}
+		defer srv.stop()
+		ok := srv.waitFor(func(ms []tssnet.InMsg) bool { return len(ms) >= len(want) }, 20*time.Second)
+		time.Sleep(300 * time.Millisecond)
+		var got []string
+		for _, m := range srv.snapshot() {
+			got = append(got, string(m.Data))
+		}
+		if !ok || fmt.Sprint(got) != fmt.Sprint(want) {
+			o.Fail = vh.Failf("C17/late-peer", "6 messages were accepted for a peer that came up 2.5 s later; it received %d of them: %v (expected %v, once each, in order)", len(got), got, want)
+			return o
+		}
+		o.Fail = c17Healthy(w, "late-peer", []int{0, 1, 2, 3})
 	case "silent-tcp-peer":
 		// peers that open a TCP connection to party 1 and never start the TLS handshake; connections made AFTERWARDS must still be served
 		var silent []gonet.Conn
@@ -588,7 +635,7 @@ func TestC17Scenarios(t *testing.T) {
 		}()
 	}
 	p.Enumerate(t, st, func(yield func(c17ScenarioCase) bool) {
-		for _, name := range []string{"types-and-limit", "garbling-peer", "silent-tcp-peer", "burst-order"} {
+		for _, name := range []string{"types-and-limit", "garbling-peer", "silent-tcp-peer", "burst-order", "late-peer"} {
 			if !yield(c17ScenarioCase{Name: name}) {
 				return
 			}
